@@ -24,11 +24,23 @@ def builder(seed, n, defaults, tag):
         method = methods[g % len(methods)]
         kind = ["tolvec", "reflect", "scale", "copies", "reflect"][g % 5]
         fams = [gen.fam_linear] if kind == "scale" else None
+        pulse = kind == "reflect" and method in ("BDF", "RADAU") and rng.random() < 0.6
+        if pulse:
+            fams = [gen.fam_pulse]
         kw, meta = sweep.base_case(rng, g, method, defaults, fams=fams)
+        if pulse:
+            # loose tolerance, analytic Jacobian: large steps, error-test rejections at the pulse, bit-exact mirroring
+            kw["rtol"] = rng.choice([1e-3, 3e-4, 1e-4]); kw["atol"] = 1e-6
+            kw["x0"] = 0.0; kw["xend"] = 20.0 if rng.random() < 0.5 else -20.0
+            if kw["xend"] < 0:
+                p0 = dict(kw["prob"]); p0["f"] = ["neg," + subst_reflect(e) for e in p0["f"]]
+                p0["jac"] = [["neg," + subst_reflect(e) for e in row] for row in p0["jac"]]
+                kw["prob"] = p0
+            meta["backward"] = kw["xend"] < 0
         prob = kw["prob"]
         nn = len(prob["y0"])
         if method in ("RADAU", "BDF"):
-            kw["use_jac"] = bool(prob.get("jac")) and (kind != "copies") and rng.random() < 0.7
+            kw["use_jac"] = bool(prob.get("jac")) and (kind != "copies") and (pulse or rng.random() < 0.7)
         # scalar tolerances as the base
         rt = kw["rtol"] if isinstance(kw["rtol"], float) else kw["rtol"][0]
         at = kw["atol"] if isinstance(kw["atol"], float) else kw["atol"][0]
